@@ -1,0 +1,12 @@
+//go:build verif
+
+package types
+
+// Contracts for the deductive checker in /verif (comment-only; compiled only with -tags verif).
+// Lib specs: /verif/specs/c18m/80_msg.spec (is_hex_addr).
+
+/*@
+// nil exactly for a syntactically valid hex address
+func ValidateAddress
+    ensures iff: (result == nil) == is_hex_addr(address)
+@*/
